@@ -268,6 +268,8 @@ class Run:
         if extra_tb:
             tb += extra_tb
         self.cov["trusted_base"] = tb
+        if ok and rep["ok"] and not gate and self.tier == "thorough" and not os.environ.get("VERIF_NO_COQCHK"):
+            self.coqchk([f"PV.Props.{self.pid}"])
         if gate:
             self.violation("forbidden-construct", "forbidden construct in the Coq development: " + "; ".join(gate[:5]),
                            {"lines": gate}, found_input=False)
@@ -276,6 +278,35 @@ class Run:
             self.proof_log = (log[-3000:] if not ok else "") + rep["log"]
             return False
         return True
+
+    def coqchk(self, modules: list[str], extra_roots: list[str] | None = None, timeout: int = 1500):
+        """Second opinion (thorough tier): re-check the compiled property file and
+        everything it depends on with the independent checker coqchk and record
+        the axioms it reports (-o lists those of every loaded library)."""
+        cmd = ["timeout", str(timeout), "coqchk", "-silent", "-o", "-R", str(COQ), "PV"] + (extra_roots or []) + modules
+        t0 = time.time()
+        p = subprocess.run(cmd, capture_output=True, text=True, cwd=COQ)
+        out = p.stdout + p.stderr
+        m = re.search(r"\* Axioms:(.*?)\n\s*\n\* Constants/Inductives relying on type-in-type:(.*?)\n\s*\n"
+                      r"\* Constants/Inductives relying on unsafe \(co\)fixpoints:(.*?)\n\s*\n"
+                      r"\* Inductives whose positivity is assumed:(.*?)\n", out, re.S)
+        rec = {"cmd": " ".join(cmd[2:]), "exit": p.returncode, "wall_s": round(time.time() - t0, 1)}
+        if m:
+            names = ["axioms", "type_in_type", "unsafe_fixpoints", "assumed_positivity"]
+            for n, g in zip(names, m.groups()):
+                g = g.strip()
+                rec[n] = [] if g == "<none>" else [x.strip() for x in g.splitlines() if x.strip()]
+        else:
+            rec["tail"] = out[-1500:]
+        self.cov["coqchk"] = rec
+        bad = p.returncode != 0 or not m or rec.get("type_in_type") or rec.get("unsafe_fixpoints") or rec.get("assumed_positivity")
+        self.cov["trusted_base"] = list(self.cov.get("trusted_base", [])) + [
+            "coqchk -o (independent checker) on the compiled property file: "
+            + ("axioms of all loaded libraries: " + (", ".join(rec.get("axioms", [])) or "none") if m else "FAILED")]
+        if bad:
+            self.violation("coqchk-rejects", "coqchk does not accept the compiled property file: " + out[-400:],
+                           {"unchecked": modules, "log": out[-3000:]}, found_input=False)
+        return not bad
 
     # -- cases ----------------------------------------------------------------
     def add_sample(self, s, limit: int = 4):
